@@ -281,6 +281,7 @@ func (s *State) evalNode(node any) object.Object { //nolint:funlen,gocognit,gocy
 		if node.Token.Type() == token.BITOR && left.Type() == object.STRING && node.Right.Value().Type() == token.LPAREN {
 			return s.evalPipe(left, node.Right)
 		}
+		left = object.CopyRegister(left) // its value now: the right operand may change it (n + ++n).
 		right := s.Eval(node.Right)
 		if right.Type() == object.ERROR {
 			return right
